@@ -720,3 +720,18 @@ Theorem C08_source_sorter_nums : forall ds : list ascii,
   Gen.FnFormatsChromsort.fn_sorter_nums (unchars ds)
     (match parse_Z (unchars ds) with Some z => z | None => 0 end) = digits_val ds.
 Proof. exact fn_sorter_nums_eq. Qed.
+
+(* ---- loop tie: ONE ITERATION of read_bed's track2track loop, translated from the Python source on every run
+   (Gen/FnFormatsTrack.v fn_track_step): reading stops at the first track line; the raw lines handed on are exactly
+   the prefix the model's until_track keeps *)
+From CNV Require Gen.FnFormatsTrack Proofs.FnFormatsTrack.
+Theorem C08_source_track_step : forall raw is_track,
+  Gen.FnFormatsTrack.fn_track_step raw is_track = if is_track then ([], true) else ([raw], false).
+Proof. exact Proofs.FnFormatsTrack.source_track_step. Qed.
+
+Theorem C08_source_track_loop : forall l : list (string * Model.Formats.line),
+  Proofs.FnFormatsTrack.gen_until l
+  = firstn (length (Model.Formats.until_track (map snd l))) (map fst l)
+  /\ Model.Formats.until_track (map snd l)
+     = firstn (length (Model.Formats.until_track (map snd l))) (map snd l).
+Proof. exact Proofs.FnFormatsTrack.source_track_loop. Qed.
